@@ -238,7 +238,16 @@ def _run_check(prop, tier, plan, base_seed, njobs, repo, scratch, t0):
 
     def triage_one(item):
         sig, vs = item
-        v = vs[0]
+        # several instances of a class may exist; one that depends on what the worker had run before (state left in
+        # the interpreter by earlier seeds) does not replay from its tape alone: try up to five candidates
+        last = None
+        for v in vs[:5]:
+            last = triage_candidate(sig, vs, v)
+            if last[0] == "ok":
+                return last
+        return last
+
+    def triage_candidate(sig, vs, v):
         path = runner.write_replay(REPLAY_DIR, prop, v["cfg"], v["env"], v)
         rep = json.load(open(path))
         rep["base_seed"] = v["base_seed"]
